@@ -8,12 +8,18 @@ def run(ctx):
     res = ctx.cvc(fams, ["F-SORT"], functions=["radixsort_int"])
     from lib import replay
     replay.replay_fsort(ctx, res)
+    res2 = ctx.cvc(fams, ["F-UNIQ"], functions=["uniq"])
+    replay.replay_funiq(ctx, res2)
     # inputs of multiunion are activated before their vectors are gathered
     ctx.cvc(["II"] if ctx.tier == "quick" else ["II", "LL", "QQ"], ["T-USE"], functions=["multiunion_m"])
     ctx.standin("multiunion_rt", families=("II", "UU", "LL", "QQ", "IO", "LF") if ctx.tier == "quick" else tuple(ALL))
     return "other", (
         "F-SORT: the pile order of the most significant pass of radixsort_int, read off the macro-expanded AST of "
         "each translation unit (%s), agrees with the order of that unit's KEY_TYPE - a bit-vector validity over the "
-        "declared width and signedness (x <_T y <=> key(x) <_u key(y)). The distribution passes, quicksort, uniq, "
+        "declared width and signedness (x <_T y <=> key(x) <_u key(y)). F-UNIQ: uniq(out, in, n) - the step that makes the "
+        "sorted vector duplicate-free - from its real body, for every n and content: given an ascending input (in place or "
+        "into a disjoint vector) the m returned satisfies 1 <= m <= n, out[0..m) strictly ascending, every output is an input "
+        "and every input an output; memcpy ranges in bounds, writes in bounds (quantifier-free queries: skolemised goals, named "
+        "witnesses). The distribution passes, quicksort, "
         "the gather loop and the Python fallback are NOT under contract: bounded stand-in multiunion_rt (both sides "
         "of the 800-element switch, extremes and top-bit keys, all operand kinds)." % ", ".join(fams))
